@@ -1,7 +1,7 @@
 (* C11 - Zernike modes are the Noll-ordered orthonormal polynomials. *)
 From Coq Require Import Reals.
 From Coquelicot Require Import Coquelicot.
-From LV Require Import Lib.Cis Model.Zernike Proofs.ZernikeP Proofs.ZernikeFloatP Proofs.ZernikeRadialP Proofs.ZernikeIntP.
+From LV Require Import Lib.Cis Model.Zernike Proofs.ZernikeP Proofs.ZernikeFloatP Proofs.ZernikeRadialP Proofs.ZernikeEntryP Proofs.ZernikeIntP.
 
 (* ---- (a) Noll's ordering ----
    [noll j] = (m, n) is the closed form: row n = ceil((-1 + sqrt(1+8j))/2) - 1 computed with the
@@ -200,6 +200,53 @@ Theorem C11_coordinates_support_only :
 Proof. exact coords_support_only. Qed.
 Print Assumptions C11_coordinates_support_only.
 
+(* ---- the public entry points: optional arguments, refusals, default-coordinate path ---- *)
+(* zernike(mask, index, normalize, rho=None, theta=None): rho alone is refused with ValueError (before the
+   index is looked at), theta alone is ignored (default coordinates), no index below 1 is accepted on
+   either path; every refusal of the default path (empty array, bad index) is a ValueError *)
+Theorem C11_entry_branches :
+  (forall a, (zernike_branch a = Err ValueError <-> a = ArgRhoOnly) /\
+             (zernike_branch a = Ok true <-> (a = ArgNone \/ a = ArgThetaOnly)) /\
+             (zernike_branch a = Ok false <-> a = ArgBoth))
+  /\ (forall mask j nz, j < 1 -> zernike_default mask j nz = Err ValueError)
+  /\ (forall mask j nz e, zernike_default mask j nz = Err e -> e = ValueError)
+  /\ (forall j rowf, j < 1 -> noll_code rowf j = Err ValueError).
+Proof.
+  exact (conj zernike_branch_spec (conj zernike_default_refuses (conj zernike_default_err
+          (fun j rowf H => noll_code_error j H rowf)))).
+Qed.
+Print Assumptions C11_entry_branches.
+
+(* the default-coordinate call, as the extracted model executes it: a rational value per sample plus
+   the two irrational factors applied by its caller (sqrt(dm_norm2), and 1/sqrt(dm_rmax2) when dm_odd).
+   It is the mode R_n^|m|(rho) * az(m, theta) * mask at the coordinates of zernike_coordinates(mask):
+   rho = r / sqrt(rmax2) and theta ANY polar angle of the direction vector (c_dirx, c_diry) = r (cos, sin) *)
+Theorem C11_default_mode_at_coordinates :
+  let Rpoly := fun (p : list (Z * Qc)) (x : R) =>
+                 fold_left (fun acc (t : Z * Qc) => (acc + Q2R (snd t) * x ^ Z.to_nat (fst t))%R) p 0%R in
+  let az := fun (m : Z) (theta : R) =>
+              if m =? 0 then 1%R else if 0 <? m then cos (IZR m * theta) else sin (IZR m * theta) in
+  forall mask j normalize d, zernike_default mask j normalize = Ok d ->
+  exists c m n, zernike_coordinates mask = Ok c /\ noll j = (m, n) /\ 1 <= j /\
+    dm_norm2 d = norm2 m n normalize /\ dm_rmax2 d = c_rmax2 c /\
+    ((0 < c_rmax2 c)%Qc -> forall i k (r theta : R), (0 <= r)%R ->
+       Q2R (c_dirx c i k) = (r * cos theta)%R -> Q2R (c_diry c i k) = (r * sin theta)%R ->
+       (Q2R (dm_val d i k) / sqrt (Q2R (dm_rmax2 d)) ^ (if dm_odd d then 1 else 0))%R
+       = (Rpoly (radial_terms (Z.abs m) n) (r / sqrt (Q2R (c_rmax2 c))) * az m theta
+          * (if mask_bool (get mask i k) then 1 else 0))%R).
+Proof. exact zernike_default_is_mode. Qed.
+Print Assumptions C11_default_mode_at_coordinates.
+
+(* zernike_basis(mask, modes, normalize) with default coordinates: row k is zernike(mask, modes[k]);
+   one index below 1 anywhere in the list refuses the whole call; nothing but ValueError is raised *)
+Theorem C11_basis_rows :
+  (forall mask modes nz ds, zernike_basis_default mask modes nz = Ok ds ->
+     Forall2 (fun j d => zernike_default mask j nz = Ok d) modes ds)
+  /\ (forall mask modes nz, (exists j, In j modes /\ j < 1) -> zernike_basis_default mask modes nz = Err ValueError)
+  /\ (forall mask modes nz e, zernike_basis_default mask modes nz = Err e -> e = ValueError).
+Proof. exact (conj zernike_basis_rows (conj zernike_basis_refuses zernike_basis_err)). Qed.
+Print Assumptions C11_basis_rows.
+
 (* (f) |Z| <= 1 without normalisation is NOT proved (a Jacobi-polynomial bound): numeric test in
    harness/props/c11.py:extra, labelled as a test. *)
 
@@ -211,4 +258,17 @@ Example C11_nonvacuous :
   /\ (match zernike_coordinates (of_list (S := QS) 3 4 (map zQ [0; 0; 0; 0;  0; 0; 2; 5;  0; 0; 0; 7])) with
       | Ok c => c_origin_r c = Q2Qc (4 # 3) /\ c_origin_c c = Q2Qc (8 # 3) /\ (0 < c_rmax2 c)%Qc /\ c_rho2 c 1 2 = 1%Qc
       | Err _ => False end).
+Proof. repeat split; try (vm_compute; reflexivity); apply Qc_is_canon; vm_compute; reflexivity. Qed.
+
+(* default path: defocus of the same mask, sample (1,2) is a farthest one (rho = 1): sqrt(3)(2 - 1);
+   tilt (|m| odd) leaves the division by sqrt(rmax2) to the caller; refusals *)
+Example C11_entry_nonvacuous :
+  let mask := of_list (S := QS) 3 4 (map zQ [0; 0; 0; 0;  0; 0; 2; 5;  0; 0; 0; 7]) in
+  (match zernike_default mask 4 true with
+   | Ok d => dm_norm2 d = 3 /\ dm_odd d = false /\ dm_val d 1 2 = 1%Qc /\ dm_val d 0 0 = 0%Qc
+   | Err _ => False end)
+  /\ (match zernike_default mask 2 true with Ok d => dm_norm2 d = 4 /\ dm_odd d = true | Err _ => False end)
+  /\ zernike_branch ArgRhoOnly = Err ValueError
+  /\ (match zernike_basis_default mask [1; 4; 7] false with Ok ds => length ds = 3%nat | Err _ => False end)
+  /\ zernike_basis_default mask [2; 0] true = Err ValueError.
 Proof. repeat split; try (vm_compute; reflexivity); apply Qc_is_canon; vm_compute; reflexivity. Qed.
